@@ -15,7 +15,10 @@ for d in seeded/*/; do
   out=$(./vcheck $prop quick 2>&1); rc=$?
   git -C /repo checkout -- .
   n=$((n+1))
-  case $rc in 1) r=caught;; 0) if [ "$bydesign" = "True" ]; then r="not-caught-by-design(see meta.json adjudication)"; else r=MISSED; miss=$((miss+1)); fi;; *) r=inconclusive; miss=$((miss+1));; esac
+  if [ $rc -eq 1 ]; then r=caught
+  elif [ $rc -eq 0 ] && [ "$bydesign" = "True" ]; then r="not-caught-by-design-see-meta.json-adjudication"
+  elif [ $rc -eq 0 ]; then r=MISSED; miss=$((miss+1))
+  else r=inconclusive; miss=$((miss+1)); fi
   echo "$id $prop $r :: $(echo "$out" | grep -A1 '^VIOLATION' | grep 'what:' | head -1 | cut -c1-160)"
 done
 echo "seedall: $n changes, $miss not caught"
